@@ -1,2 +1,69 @@
-(** Theorems for C14: filled in below as the proofs land. *)
-From JL Require Import Base.Json.
+(** * C14: all / some / none are bounded quantifiers with short-circuit; none = not some.
+    Statements only; proofs are in Proofs/Arrays.v and Proofs/ArrayFacts.v. *)
+From Coq Require Import List Bool.
+From JL Require Import Base.Json Base.Lits Base.Monad Model.Ops Spec.Specs Spec.OpSpecs.
+From JL Require Import Proofs.MonadLaws Proofs.Arrays Proofs.ArrayFacts.
+Import ListNotations.
+Local Open Scope m_scope.
+
+(** For every parser P and evaluator E that returns string literals unchanged (the real one
+    does): all / some / none are the specification quant_spec - collection normalised (literal
+    array with element expressions evaluated against the outer data as reached; value of an
+    operation; string by character; null; else an error), false on empty, then forallM / existsM
+    of "the predicate is truthy", evaluated left to right and stopping at the deciding element. *)
+Theorem C14_all_is_spec :
+  forall (parsed : Type) (P : value -> outcome parsed) (E : parsed -> value -> M value),
+    (forall s d, pe parsed P E (Str s) d = ret (Str s)) ->
+    forall d c p, all_ parsed P E d [c; p] = quant_spec (pe parsed P E) (chk parsed P) true d c p.
+Proof. exact all_is_spec. Qed.
+Print Assumptions C14_all_is_spec.
+
+Theorem C14_some_is_spec :
+  forall (parsed : Type) (P : value -> outcome parsed) (E : parsed -> value -> M value),
+    (forall s d, pe parsed P E (Str s) d = ret (Str s)) ->
+    forall d c p, some_ parsed P E d [c; p] = quant_spec (pe parsed P E) (chk parsed P) false d c p.
+Proof. exact some_is_spec. Qed.
+Print Assumptions C14_some_is_spec.
+
+Theorem C14_none_is_spec :
+  forall (parsed : Type) (P : value -> outcome parsed) (E : parsed -> value -> M value),
+    (forall s d, pe parsed P E (Str s) d = ret (Str s)) ->
+    forall d c p, none_ parsed P E d [c; p] = none_spec (pe parsed P E) (chk parsed P) d c p.
+Proof. exact none_is_spec. Qed.
+Print Assumptions C14_none_is_spec.
+
+(** none is the exact negation of some, with the same errors and the same log lines *)
+Theorem C14_none_negates_some :
+  forall ev chk d c p t b,
+    quant_spec ev chk false d c p = (t, Ok (Bool b)) -> none_spec ev chk d c p = (t, Ok (Bool (negb b))).
+Proof. exact none_negates_some. Qed.
+Print Assumptions C14_none_negates_some.
+
+Theorem C14_none_fails_with_some :
+  forall ev chk d c p t e,
+    quant_spec ev chk false d c p = (t, Err e) -> none_spec ev chk d c p = (t, Err e).
+Proof. exact none_fails_with_some. Qed.
+Print Assumptions C14_none_fails_with_some.
+
+Theorem C14_empty_is_false :
+  forall ev chk is_all d p,
+    quant_spec ev chk is_all d (Arr []) p = ret (Bool false) /\
+    quant_spec ev chk is_all d Null p = ret (Bool false) /\
+    quant_spec ev chk is_all d (Str []) p = ret (Bool false).
+Proof. exact quant_empty. Qed.
+Print Assumptions C14_empty_is_false.
+
+(** Short circuit: whatever follows the deciding element is irrelevant (value, error, log). *)
+Theorem C14_all_stops :
+  forall (q : value -> M bool) xs x ys ys' t,
+    forallM q xs = (t, Ok true) -> (exists t', q x = (t', Ok false)) ->
+    forallM q (xs ++ x :: ys) = forallM q (xs ++ x :: ys').
+Proof. exact forallM_stops. Qed.
+Print Assumptions C14_all_stops.
+
+Theorem C14_some_stops :
+  forall (q : value -> M bool) xs x ys ys' t,
+    existsM q xs = (t, Ok false) -> (exists t', q x = (t', Ok true)) ->
+    existsM q (xs ++ x :: ys) = existsM q (xs ++ x :: ys').
+Proof. exact existsM_stops. Qed.
+Print Assumptions C14_some_stops.
